@@ -174,7 +174,7 @@ func (tlc *TemporalLogClient) addChain(ctx context.Context, ctype ct.LogEntryTyp
 		return nil, errors.New("missing chain")
 	}
 	cert, err := x509.ParseCertificate(chain[0].Data)
-	if err != nil {
+	if x509.IsFatal(err) {
 		return nil, fmt.Errorf("failed to parse initial chain entry: %v", err)
 	}
 	cidx, err := tlc.IndexByDate(cert.NotAfter)
